@@ -25,7 +25,7 @@ func init() {
 		Builds:              []string{"default", "386"}, // the 386 build runs 1/12 of the random classes on a 32-bit target
 		Scale386:            12,
 		Parallel:            4, // cases are judged on 4 goroutines per shard: the library functions are stateless, shared state inside them shows up as wrong verdicts
-		Rule: "(curve, seed, path): curves secp256k1, NIST P-256, ed25519 and four pluggable curves (secp256k1/P-256 wrapped so that a quarter of all candidate I_L values are declared invalid (half of them with the sentinel wrapped by %w), on NewPrivateKey and Shift, private and public side; in a second mode a sixteenth return a permanent error); seeds of length 0..128; paths of length 0..8 over {0, 1, 2^31-1, 2^31, 2^31+1, 2^32-1, random hardened / non-hardened}. Each node (stepwise NewMasterKey/DeriveChild, DeriveKeyFromPath of every prefix, Public(), public-side child) is compared with the SLIP-0010 model: private key, chain code, serialized public key, parent fingerprint; undefined derivations must fail, permanent errors must be returned. deep: paths of 255, 256, 257, 300, 512 and 513 elements on the three built-in curves, derived node by node and through DeriveKeyFromPath, every node and (around depth 256 and 512) its public side compared with the model. " +
+		Rule: "(curve, seed, path): curves secp256k1, NIST P-256, ed25519 and four pluggable curves (secp256k1/P-256 wrapped so that a quarter of all candidate I_L values are declared invalid (half of them with the sentinel wrapped by %w), on NewPrivateKey and Shift, private and public side; in a second mode a sixteenth return a permanent error); seeds of length 0..128; paths of length 0..8 over {0, 1, 2^31-1, 2^31, 2^31+1, 2^32-1, random hardened / non-hardened}. Each node (stepwise NewMasterKey/DeriveChild, DeriveKeyFromPath of every prefix, Public(), public-side child) is compared with the SLIP-0010 model: private key, chain code, serialized public key, parent fingerprint; undefined derivations must fail, permanent errors must be returned. validity: Curve.NewPrivateKey of the three built-in curves on 0, 1, 2, n-2..n+2, 2^256-1 and random candidates (refused with ErrInvalidKey exactly outside [1, n-1]; on ed25519 every 32-byte string is a key). deep: paths of 255, 256, 257, 300, 512 and 513 elements on the three built-in curves, derived node by node and through DeriveKeyFromPath, every node and (around depth 256 and 512) its public side compared with the model. " +
 			"Non-trivial: distinct cases with path length >= 1.",
 		Assumptions: []string{"HMAC-SHA512, SHA-256 (standard library), RIPEMD-160 (x/crypto)", "the SLIP-0010 model in harness/oracle/slip10m over oracle/weier and oracle/ed (self-tested against the published SLIP-0010 vectors of all three curves incl. the P-256 retry vectors)"},
 		SelfTest:    slip10m.SelfTest,
@@ -35,7 +35,7 @@ func init() {
 			p := fw.Unpack(key)
 			return map[string]interface{}{"curve": curveName(p[0][0]), "seed": fw.Hex(p[1]), "path": decPath(p[2])}
 		},
-		Required: []string{"deep paths (255..513 elements) derived node by node", "shared parent object used concurrently", "appended into spare capacity of returned slices, key unchanged", "wrap-around shifts checked", "node ok", "master retry taken", "child retry taken", "permanent error returned", "undefined derivation refused", "public child ok"},
+		Required: []string{"validity: candidate outside [1, n-1] refused", "validity: candidate inside [1, n-1] accepted", "deep paths (255..513 elements) derived node by node", "shared parent object used concurrently", "appended into spare capacity of returned slices, key unchanged", "wrap-around shifts checked", "node ok", "master retry taken", "child retry taken", "permanent error returned", "undefined derivation refused", "public child ok"},
 	})
 }
 
@@ -254,6 +254,52 @@ func cmpErr(o *fw.Obs, what string, e *slip10.ExtendedKey, err, merr error, pubP
 	return true
 }
 
+// judgeValidity: the validity predicate of the built-in curves, which decides the prescribed retry: a 32-byte
+// candidate is a private key exactly when 0 < parse256(b) < n (secp256k1, P-256; every 32-byte string on
+// ed25519). An HMAC output hits the boundary with probability 2^-128 / 2^-32, so it is driven directly.
+func judgeValidity(cid byte, b []byte, o *fw.Obs) {
+	o.Nontrivial()
+	curve, mp := curves(cid)
+	want := true
+	if mp.W != nil {
+		v := new(big.Int).SetBytes(b)
+		want = v.Sign() > 0 && v.Cmp(mp.W.N) < 0
+	}
+	var k slip10.Key
+	var err error
+	in := append([]byte(nil), b...)
+	if !o.Try("Curve.NewPrivateKey", func() { k, err = curve.NewPrivateKey(in) }) {
+		return
+	}
+	what := fmt.Sprintf("%s NewPrivateKey(%x)", curveName(cid), b)
+	if !want {
+		if err == nil || !errors.Is(err, slip10.ErrInvalidKey) || k != nil {
+			o.Fail("validity", "%s: the candidate is 0 or not below the group order, SLIP-0010 prescribes a retry (ErrInvalidKey); got key=%v err=%v", what, k != nil, err)
+			return
+		}
+		o.Count("validity: candidate outside [1, n-1] refused")
+		return
+	}
+	if err != nil || k == nil {
+		o.Fail("validity", "%s: a valid candidate was refused: %v", what, err)
+		return
+	}
+	var kb, pb []byte
+	var priv bool
+	if !o.Try("Key.Bytes/Public", func() { kb, priv, pb = k.Bytes(), k.IsPrivate(), k.Public().Bytes() }) {
+		return
+	}
+	m, merr := mp.KeyOf(b)
+	if merr != nil {
+		panic("c02: model refuses a valid candidate")
+	}
+	if !priv || !bytes.Equal(kb, b) || !bytes.Equal(pb, m) {
+		o.Fail("validity", "%s: key bytes %x, public key %x; SLIP-0010 prescribes %x / %x", what, kb, pb, b, m)
+		return
+	}
+	o.Count("validity: candidate inside [1, n-1] accepted")
+}
+
 // judgeDeep: derivation paths of 255..513 elements (depth counters narrower than int), stepwise and through
 // DeriveKeyFromPath, every node compared with the model.
 func judgeDeep(cid byte, seed []byte, path []uint32, o *fw.Obs) {
@@ -315,6 +361,10 @@ func judge(class string, key []byte, o *fw.Obs) {
 	cid, seed, path := p[0][0], p[1], decPath(p[2])
 	if class == "deep" {
 		judgeDeep(cid, seed, path, o)
+		return
+	}
+	if class == "validity" {
+		judgeValidity(cid, seed, o)
 		return
 	}
 	curve, mp := curves(cid)
@@ -665,6 +715,31 @@ func gen(g *fw.Gen) {
 			}
 		}
 		g.Emit("derive", fw.Pack([]byte{cid}, seed, encPath(path)))
+	}
+	// validity predicate of the built-in curves at its boundaries
+	{
+		k := 0
+		for cid := byte(0); cid < 3; cid++ {
+			_, mp := curves(cid)
+			var cands [][]byte
+			fillb := func(v *big.Int) []byte { return v.FillBytes(make([]byte, 32)) }
+			max := new(big.Int).Sub(new(big.Int).Lsh(big.NewInt(1), 256), big.NewInt(1))
+			cands = append(cands, make([]byte, 32), fillb(big.NewInt(1)), fillb(big.NewInt(2)), fillb(max))
+			if mp.W != nil {
+				for d := int64(-2); d <= 2; d++ {
+					cands = append(cands, fillb(new(big.Int).Add(mp.W.N, big.NewInt(d))))
+				}
+			}
+			for n := 0; n < 4; n++ {
+				cands = append(cands, g.Bytes(32))
+			}
+			for _, c := range cands {
+				k++
+				if g.Own(k) {
+					g.Emit("validity", fw.Pack([]byte{cid}, c, nil))
+				}
+			}
+		}
 	}
 	// deep paths: one per (built-in curve, length), spread over the shards; thorough: several seeds
 	i := 0
